@@ -81,8 +81,9 @@ let header_fields (h : header) : string =
   let iss = outcome_str (fun ((j, hh), mm) -> Printf.sprintf "%d:%d:%d" (int_of_n j) (int_of_n hh) (int_of_n mm))
       (issue_daytime_fields h) in
   let call = outcome_str hex_of_nl (callsign h) in
-  Printf.sprintf "%s %d %d org=%s evt=%s locs=%s dur=%s iss=%s call=%s"
-    text (int_of_n h.h_parity) (int_of_n h.h_voting) org evt locs dur iss call
+  let nat = outcome_str (fun b -> if b then "1" else "0") (is_national h) in
+  Printf.sprintf "%s %d %d org=%s evt=%s locs=%s dur=%s iss=%s call=%s nat=%s"
+    text (int_of_n h.h_parity) (int_of_n h.h_voting) org evt locs dur iss call nat
 
 let msg_result_str (r : msg_result) : string =
   match r with
@@ -156,6 +157,25 @@ let handle (line : string) : string =
   | [ "expired"; j; h; m; dh; dm; ry; ro; sod; ns ] ->
     let zi x = z_of_int (int_of_string x) in
     if is_expired_at (zi j) (zi h) (zi m) (zi dh) (zi dm) (zi ry) (zi ro) (zi sod) (zi ns) then "1" else "0"
+  | [ "event"; s ] ->
+    let e = event_from (nl_of_hex s) in
+    let b x = if x then "1" else "0" in
+    Printf.sprintf "%s %d %s %s %s %s %s" (hex_of_nl (fst e)) (int_of_n (sig_as_u8 (snd e)))
+      (hex_of_nl (event_display e)) (b (event_is_test e)) (b (phen_is_national (fst e)))
+      (b (phen_is_weather (fst e))) (b (event_is_unrecognized e))
+  | [ "eventblock"; a ] ->
+    (* all ASCII (b, c) for the given first byte: hash of phenomenon name and significance *)
+    let a = int_of_string a in
+    let h = ref fnv_init in
+    for b = 0 to 127 do
+      for c = 0 to 127 do
+        let e = event_from [ n_of_int a; n_of_int b; n_of_int c ] in
+        List.iter (fun x -> h := fnv_step !h (int_of_n x)) (fst e);
+        h := fnv_step !h (int_of_n (sig_as_u8 (snd e)))
+      done
+    done;
+    Printf.sprintf "%016Lx" !h
+  | [ "orig"; o; c ] -> hex_of_nl (originator_from_org_and_call (nl_of_hex o) (nl_of_hex c))
   | [ "utf8"; s ] -> if valid_utf8 (nl_of_hex s) then "1" else "0"
   | _ -> Driver_ext.handle toks
 
